@@ -41,12 +41,25 @@ def _count(kind: str, n: int, k: int) -> int:
     return n ** k
 
 
-def o_comb(kind: str, seq: str, npos: int, glob: bool, none_size: bool, size: int, p0: int = 0, p1: int = 0, excl=()) -> bool:
+def o_comb(kind: str, seq: str, npos: int, glob: bool, none_size: bool, size: int, p0: int = 0, p1: int = 0, nt: bool = True, ct: bool = True,
+           excl=()) -> bool:
     import crosshair
     size = crosshair.realize(size)      # itertools (C) rejects a symbolic r: realisation point, every value of the range is visited
     pos = [p0, p1][:npos]
     a = _build(seq, pos, glob, None)
+    if glob and not nt:
+        a.nterm_mods = None
+    if glob and not ct:
+        a.cterm_mods = None
     n = len(seq)
+
+    def _exp(w):
+        d = list(_expect(w, glob, None, seq))
+        if glob and not nt:
+            d[5] = None
+        if glob and not ct:
+            d[6] = None
+        return tuple(d)
     k = n if none_size else size
     got = getattr(a.copy(), kind)(None if none_size else size)
     res = _residues(seq, pos)
@@ -57,7 +70,7 @@ def o_comb(kind: str, seq: str, npos: int, glob: bool, none_size: bool, size: in
         if not isinstance(g, ProFormaAnnotation):
             return _fail(why="result is not an annotation")
         gd = D.norm_empty(D.dump(g))
-        wd = D.norm_empty(_expect(w, glob, None, seq))
+        wd = D.norm_empty(_exp(w))
         if gd != wd:
             return _fail(why="result differs from the standard enumeration over modified residues", kind=kind, diff=D.diff(gd, wd))
     # the string-level wrapper: same results, each parses back to the same annotation
@@ -66,6 +79,6 @@ def o_comb(kind: str, seq: str, npos: int, glob: bool, none_size: bool, size: in
         return _fail(why="wrapper: number of results")
     for t, w in zip(texts, want):
         back = parse(t)
-        if D.norm_empty(D.dump(back)) != D.norm_empty(_expect(w, glob, None, seq)):
+        if D.norm_empty(D.dump(back)) != D.norm_empty(_exp(w)):
             return _fail(why="wrapper result does not parse to the expected annotation", text=t)
     return True
